@@ -2,7 +2,7 @@
 import ast
 
 from vstat.loader import AnalysisError
-from vstat.terms import builder, show, SELF, NONE, G, alts, walk, mentions, phi, subst, strip_none
+from vstat.terms import CMP, builder, show, SELF, NONE, G, alts, walk, mentions, phi, subst, strip_none
 from vstat.guards import path_conditions
 from vstat.cfg import cfg_of
 from vstat.sigs import bind
@@ -23,9 +23,9 @@ ASSUME = ["numpy.quantile semantics for ties / heavy tails and Monte-Carlo adequ
 def run(prog, rep):
     rep.explanation = EXPL
     rep.assumptions = ASSUME
-    default_n(prog, rep, DS, "C03.n")
-    compute(prog, rep)
-    ctor_stores(prog, rep, "C03.ctor", DS, ["model", "alpha", "deg_step", "sample"])
+    rep.part(default_n, prog, rep, DS, "C03.n")
+    rep.part(compute, prog, rep)
+    rep.part(ctor_stores, prog, rep, "C03.ctor", DS, ["model", "alpha", "deg_step", "sample"])
     rep.expect_min("C03.ctor", 2)
     rep.expect_min("C03.n", 2)
     rep.expect_min("C03.proj", 3)
@@ -33,7 +33,8 @@ def run(prog, rep):
     rep.expect_min("C03.wrap", 2)
     rep.expect_min("C03.step", 1)
     rep.expect_min("C03.grid", 1)
-
+    from .purity import row as _stateless_row
+    rep.part(_stateless_row, prog, rep, "C03", 2)
 
 def default_n(prog, rep, cls, rule):
     fn = prog.func(f"{cls}.__init__")
@@ -203,7 +204,7 @@ def compute(prog, rep):
             if i[0] == "counter" and i[2] == ("const", 0) and i[3] == ("const", 1):
                 if lp and isinstance(lp[-1], ast.While):
                     tt = b.term(lp[-1].test, lp[-1])
-                    cover = tt in [("cmp", "<", i, c) for c in counts] + [("cmp", ">", c, i) for c in counts]
+                    cover = tt in [CMP("<", i, c) for c in counts]
             elif i[0] == "idx" and i[2] == "range":
                 cover = i[3] in [(c,) for c in counts] + [(("const", 0), c) for c in counts]
             elif i[0] == "idx" and i[2] == "enumerate" and lp and isinstance(lp[-1], ast.For):
